@@ -9,10 +9,10 @@ open Galaxy
 /-- a state that differs only in fields the invariant does not mention -/
 theorem Inv.of_fields {s s' : State} (h : Inv s) (h1 : s'.pools = s.pools) (h2 : s'.alloc = s.alloc) (h3 : s'.free = s.free)
     (h4 : s'.store = s.store) (h5 : s'.pods = s.pods) (h6 : s'.vPods = s.vPods) (h7 : s'.events = s.events)
-    (h8 : s'.nextUid = s.nextUid) : Inv s' := by
+    (h8 : s'.nextUid = s.nextUid) (h9 : s'.admin = s.admin := by rfl) : Inv s' := by
   refine ⟨coherent_of_eq h.coh h1 h2 h4 h3, ?_, ?_, ?_, ?_, ?_, ?_, ?_, by rw [h5]; exact h.podsNodup,
     by rw [h6]; exact h.vPodsNodup⟩
-  · rw [h5]; exact h.safe.of_alloc_eq h2
+  · rw [h5]; exact h.safe.of_alloc_eq h2 h9
   · rw [h5, h8]; exact h.podsWF
   · rw [h5]; exact h.uidUniq
   · rw [h5, h6, h8]; exact h.lister
@@ -161,7 +161,7 @@ theorem inv_setPodSame (s : State) (id : String × String) (p p' : Pod) (evs : L
     · exact Or.inl ⟨he, liveBound_of_set_ne hq he⟩
   refine ⟨coherent_of_eq h.coh rfl rfl rfl rfl, ?_, ?_, ?_, ?_, ?_, ?_, h.uidPos, Tbl.nodup_keys_set _ _ h.podsNodup,
     h.vPodsNodup⟩
-  · refine ⟨fun q hq hd hm => ?_⟩
+  · refine ⟨fun q hq hd hm => ?_, h.safe.admin⟩
     rcases hlb q hq with ⟨_, hq'⟩ | ⟨e, hq'⟩
     · exact h.safe.own q hq' hd hm
     · subst e
